@@ -79,6 +79,10 @@ def main(argv: List[str]) -> int:
         rnd.shuffle(pairs)
         for a, b in pairs[:20]:
             models.append((f"{a}+{b}", [a, b], rnd.randrange(10**6)))
+    restricted = {}
+    for rn, (_, r_plugins, r_subs) in ev.RESTRICTED.items():
+        models.append((f"{rn}@only", [rn], run.seed * 13 + 1))
+        restricted[f"{rn}@only"] = (r_plugins, r_subs)
     tmp = gen.scratch("verif-c06-")
     sub_runs = 0
     plugin_runs = 0
@@ -96,6 +100,17 @@ def main(argv: List[str]) -> int:
             evolved.append({"model": mname, "edits": edits, "seed": seed, "structures": len(d["structures"]), "requests": len(d["requests"])})
             # every plugin terminates successfully
             ok = True
+            if mname in restricted:
+                # an edit only some plugins can process: those plugins and their checks only
+                for pl, outdir in (("python", os.path.join(ov, "packages", "python")), ("rust", os.path.join(ov, "packages", "rust")), ("dotnet", os.path.join(ov, "_dotnet"))):
+                    if pl in restricted[mname][0]:
+                        rc, log, dt = gen.run_plugin(pl, outdir, repo=ov)
+                        plugin_runs += 1
+                        if rc != 0:
+                            run.violation(f"evolve:{pl}:exit:{'+'.join(edits)}", f"{pl} plugin fails on the evolved model {mname}: {log[-200:]}", {"model": mname, "edits": edits, "seed": seed, "plugin": pl, "exit": rc, "log": log[-1500:]}, True)
+                for pid in restricted[mname][1]:
+                    jobs.append((mname, edits, seed, ov, pid))
+                continue
             for pl, outdir in (("python", os.path.join(ov, "packages", "python")), ("rust", os.path.join(ov, "packages", "rust")), ("dotnet", os.path.join(ov, "_dotnet"))):
                 rc, log, dt = gen.run_plugin(pl, outdir, repo=ov)
                 plugin_runs += 1
